@@ -202,7 +202,7 @@ def jobs(tier):
     c2 = ["XY", "YZ", "YY", "ZZ", "ZX"] if tier == "quick" else all_strings(2)
     for s in c2:
         add("cplx-sample-2x2-%s" % s, "per_sample", kind="complex", n=2, h=2, a=None, strings=[s])
-    add("cplx-batch-2x2", "batch", kind="complex", n=2, h=2, a=None, data=[[0, 1], [1, 1], [0, 1], [1, 0], [0, 0]], bases=["XY", "ZZ", "XY", "YZ", "ZZ"])
+    add("cplx-batch-2x2", "batch", kind="complex", n=2, h=2, a=None, data=[[0, 1], [1, 1], [0, 1], [1, 0], [0, 0]], bases=["XY", "ZZ", "YZ", "ZZ", "XY"])  # (first and last row share their basis)
     add("cplx-batch-1x2", "batch", kind="complex", n=1, h=2, a=None, data=[[0], [1], [1], [0]], bases=["X", "Z", "Y", "X"])
     # one batch holding every basis string of two sites (grouping of rows by basis must keep all 9 apart), rows not grouped by basis
     nine = ["ZX", "XY", "YZ", "XZ", "YX", "ZZ", "XX", "ZY", "YY", "XZ"]
